@@ -7,6 +7,7 @@
    The model follows the code REPAIRED by fixes/C02-rtf-skip-and-boundaries.patch:
      * the `{\` destination look-ahead only runs while no group is being skipped,
      * "cell", "row", "sect" are in SPECIAL_CHARS and \page / \sbkpage append "\n" to the result.
+   (HEAD also has _repair_surrogates on the joined result: modelled as repair_surrogates.)
    Everything else is the code as it is (the `\u` branch that swallows `\u` of `\ul`, `\uc1`, ... included).
 
    Character predicates str.isalpha / str.isdigit, the regex classes \d and \s, re.IGNORECASE and
@@ -35,6 +36,27 @@ Definition is_brace (c : N) : bool := (c =? 123) || (c =? 125).
 Definition is_special (c : N) : bool := (c =? 92) || (c =? 123) || (c =? 125).
 
 Definition head_is (c : N) (x : str) : bool := match x with d :: _ => d =? c | [] => false end.
+
+Definition is_hi (c : N) : bool := (55296 <=? c) && (c <=? 56319).
+Definition is_lo (c : N) : bool := (56320 <=? c) && (c <=? 57343).
+Definition is_surr (c : N) : bool := (55296 <=? c) && (c <=? 57343).
+
+(* _repair_surrogates: text.encode("utf-16-le", "surrogatepass").decode("utf-16-le", "replace") :
+   a high surrogate followed by a low one becomes the character they encode, any other surrogate
+   code point becomes U+FFFD, everything else is unchanged *)
+Fixpoint repair_surrogates (x : str) : str :=
+  match x with
+  | [] => []
+  | c :: r =>
+      if is_hi c then
+        match r with
+        | d :: r' => if is_lo d then (65536 + (c - 55296) * 1024 + (d - 56320)) :: repair_surrogates r'
+                     else 65533 :: repair_surrogates r
+        | [] => [65533]
+        end
+      else if is_lo c then 65533 :: repair_surrogates r
+      else c :: repair_surrogates r
+  end.
 
 Definition hexval (c : N) : N :=
   if is_digit c then c - 48 else if is_lower c then c - 87 else c - 55.
@@ -278,7 +300,8 @@ Fixpoint go (T : tables) (k : nat) (depth : Z) (skip : option Z) (x : str) : str
       end
   end.
 
-Definition strip_full (T : tables) (x : str) : str := go T 0 0%Z None x.
+(* joined = _repair_surrogates("".join(result)) *)
+Definition strip_full (T : tables) (x : str) : str := repair_surrogates (go T 0 0%Z None x).
 
 (* ---------------------------------------------------------------- paragraphs and full_text *)
 Fixpoint split_aux (sep : N) (cur : str) (x : str) : list str :=
@@ -332,7 +355,7 @@ Definition segments (T : tables) (d : rdoc) : list str := groups (doc_syms T d).
 Definition visible (T : tables) (d : rdoc) : list str := leaves (doc_syms T d).
 
 (* ---------------------------------------------------------------- well-formedness / support *)
-Definition tok_char (ws : N -> bool) (c : N) : bool := negb (ws c) && negb (is_special c).
+Definition tok_char (ws : N -> bool) (c : N) : bool := negb (ws c) && negb (is_special c) && negb (is_surr c).
 
 Definition boundary_words : list str := [s "par"; s "line"; s "tab"; s "cell"; s "row"; s "page"].
 
